@@ -19,11 +19,19 @@ def collectRollF [Mul α] (S : Nat) (binR : Nat → Nat) (w : Nat → α) (E : N
     Nat → Nat → α :=
   fun i t => E i ((t + S - binR i % S) % S) * w i
 
-/-- Patch-wise receiver histogram: the ETC slot nearest to the receiver direction, times
-    the geometric weight `g j` (0 for invisible patches), then `collectF`. -/
+/-- Patch-wise receiver histogram as the repaired kernel would give it: the ETC slot nearest
+    to the receiver direction, times the geometric weight `g j` (0 for invisible patches),
+    then the truncating `collectF`. -/
 def patchwiseF [Mul α] [Zero α] (etcv : Nat → Nat → Nat → α) (ridx : Nat → Nat)
     (g : Nat → α) (binR : Nat → Nat) (w : Nat → α) : Nat → Nat → α :=
   collectF binR w (fun j t => etcv j (ridx j) t * g j)
+
+/-- Patch-wise receiver histogram **as the code computes it** (`np.roll` in
+    `_collect_receiver_energy`, known finding D3): identical to `patchwiseF` whenever no
+    energy is delayed past the end of the histogram. -/
+def patchwiseCodeF [Mul α] (S : Nat) (etcv : Nat → Nat → Nat → α) (ridx : Nat → Nat)
+    (g : Nat → α) (binR : Nat → Nat) (w : Nat → α) : Nat → Nat → α :=
+  collectRollF S binR w (fun j t => etcv j (ridx j) t * g j)
 
 /-- Mono curve: sum over patches `0 … P-1`, in index order. -/
 def monoF [Add α] [Zero α] (P : Nat) (pw : Nat → Nat → α) : Nat → α :=
